@@ -1,0 +1,41 @@
+//! Verification hooks (cargo feature `verif_hooks`, off by default).
+//!
+//! A per-thread logical step counter bumped by every element access of the decoder
+//! (`SeqAccess`/`MapAccess`/`EnumAccess`). Out-of-tree monitors read it to relate the
+//! work actually performed to the cost the decoder charged, independently of the metering.
+//! An optional limit turns a runaway loop into a panic with a recognisable payload.
+
+use std::cell::Cell;
+
+/// Panic payload used when the step limit is exceeded.
+pub const STEP_LIMIT_PANIC: &str = "candid::verif: step limit exceeded";
+
+thread_local! {
+    static STEPS: Cell<u64> = const { Cell::new(0) };
+    static LIMIT: Cell<u64> = const { Cell::new(u64::MAX) };
+}
+
+/// Reset the counter and install a limit (`u64::MAX` for none).
+pub fn reset(limit: u64) {
+    STEPS.with(|s| s.set(0));
+    LIMIT.with(|l| l.set(limit));
+}
+
+/// Steps counted on this thread since the last `reset`.
+pub fn steps() -> u64 {
+    STEPS.with(|s| s.get())
+}
+
+#[inline]
+pub(crate) fn step() {
+    let n = STEPS.with(|s| {
+        let n = s.get().wrapping_add(1);
+        s.set(n);
+        n
+    });
+    if n > LIMIT.with(|l| l.get()) {
+        // disarm so that unwinding code paths cannot trip the limit again
+        LIMIT.with(|l| l.set(u64::MAX));
+        panic!("{}", STEP_LIMIT_PANIC);
+    }
+}
